@@ -373,3 +373,20 @@ def norm(x):
     if isinstance(x, (list, tuple)):
         return tuple(norm(y) for y in x)
     return x
+
+
+def pick_order_seam():
+    """A seam (see mc/props/c09.py) whose forced reordering ENDS IN the order stored in
+    `seam.target` (dict name -> level), instead of where the library's sifting would stop:
+    the heuristic is free to choose any order, so every choice must be harmless."""
+    from .props.c09 import Seam
+
+    class PickOrder(Seam):
+        target = None
+
+        def _reorder(self, bdd, *a, **kw):
+            if self.active and not a and not kw and self.target is not None:
+                self.reorders += 1
+                return self.orig_reorder(bdd, dict(self.target))
+            return Seam._reorder(self, bdd, *a, **kw)
+    return PickOrder()
